@@ -16,8 +16,8 @@
 
    Abstraction: a path's attributes are (rank class a_pref, LLGR_STALE / NO_LLGR
    community bits, route targets); the comparator RibEntry::cmp is its projection
-   on (llgr-stale, a_pref, iBGP, stale, router id) -- the harness realises a_pref
-   by LOCAL_PREF / AS_PATH length / ORIGIN, CLUSTER_LIST is always absent.
+   on (llgr-stale, a_pref, iBGP, stale, CLUSTER_LIST length, originator / router id)
+   -- the harness realises a_pref by LOCAL_PREF / AS_PATH length / ORIGIN.
    Arc identity (attribute block, Source) is a token.  Hash-map iteration order
    is not modelled: per-destination work is independent and the request stream
    is compared per key.  [variant] selects the behaviour of distribute_update
@@ -27,7 +27,13 @@ From RB Require Import Base.Val.
 Import ListNotations.
 Open Scope N_scope.
 
-Definition prefix := (N * N)%type.      (* (kind, id): 0 IPv4 unicast, 1 VPNv4, 2 VRF-local form of VPNv4 id *)
+(* (kind, id): 0 IPv4 unicast, 1 VPNv4 (id = 10 * RD + inner prefix), 2 the
+   VRF-local form of a VPNv4 prefix (id = inner prefix: the RD is stripped),
+   3 IPv6 unicast, 4 VPNv6, 5 the VRF-local form of a VPNv6 prefix *)
+Definition prefix := (N * N)%type.
+Definition is_vpn (p : prefix) : bool := (fst p =? 1) || (fst p =? 4).
+(* table::vpn_to_local_nlri *)
+Definition local_pfx (p : prefix) : prefix := (fst p + 1, snd p mod 10).
 Definition pfx_eqb (a b : prefix) : bool := (fst a =? fst b) && (snd a =? snd b).
 Definition src_eqb (a b : N * N) : bool := (fst a =? fst b) && (snd a =? snd b).
 Definition memN (x : N) (l : list N) : bool := existsb (N.eqb x) l.
@@ -61,7 +67,9 @@ Definition oaddr (o : option nexthop) : option N :=
   match o with Some n => Some (nh_addr n) | None => None end.
 Definition nh_of_addr (a : N) : nexthop := if a <? 100 then NhV4 a else NhV6 a.
 
-Record attr := { a_pref : N; a_llgrc : bool; a_nollgr : bool; a_rts : list N }.
+Record attr := { a_pref : N; a_llgrc : bool; a_nollgr : bool; a_rts : list N;
+                 a_clen : N;                (* CLUSTER_LIST length *)
+                 a_oid : option N           (* ORIGINATOR_ID *) }.
 
 Record entry := {
   e_peer : N;                 (* 0 = Source::local() *)
@@ -157,7 +165,7 @@ Definition peer_info (p : N) : N * bool :=
 Definition attr_of (tok : N) : attr :=
   match find (fun x => fst x =? tok) (c_attrs c) with
   | Some x => snd x
-  | None => {| a_pref := 0; a_llgrc := false; a_nollgr := false; a_rts := [] |}
+  | None => {| a_pref := 0; a_llgrc := false; a_nollgr := false; a_rts := []; a_clen := 0; a_oid := None |}
   end.
 
 Definition esrc (e : entry) : N * N := (e_peer e, e_sess e).
@@ -167,9 +175,13 @@ Definition e_llgr (fl : flags) (e : entry) : bool := e_srcllgr fl e || a_llgrc (
 
 (* decision steps before the router-id step: the ECMP key of ecmp_paths *)
 Definition skey (fl : flags) (e : entry) : list N :=
-  [b2n (e_llgr fl e); a_pref (e_attr e); b2n (snd (peer_info (e_peer e))); b2n (e_stale fl e)].
+  [b2n (e_llgr fl e); a_pref (e_attr e); b2n (snd (peer_info (e_peer e))); b2n (e_stale fl e);
+   a_clen (e_attr e)].
+(* RibEntry::originator_id: the ORIGINATOR_ID attribute, else the source's router id *)
+Definition orig_id (e : entry) : N :=
+  match a_oid (e_attr e) with Some o => o | None => fst (peer_info (e_peer e)) end.
 (* RibEntry::cmp *)
-Definition fkey (fl : flags) (e : entry) : list N := skey fl e ++ [fst (peer_info (e_peer e))].
+Definition fkey (fl : flags) (e : entry) : list N := skey fl e ++ [orig_id e].
 
 (* entry.cmp(a).is_ge() *)
 Definition ege (fl : flags) (e a : entry) : bool :=
@@ -236,7 +248,7 @@ Definition distribute (fl : flags) (p : prefix) (ch : change) : list req :=
   if negb emit then [] else
   let nh := nhs_of (ecmp_code fl (ch_cur ch)) in
   Apply None p nh ::
-  (if fst p =? 1 then
+  (if is_vpn p then
      flat_map (fun vr : N * list N =>
        if fst vr =? 0 then [] else
        let importable := match ch_cur ch with
@@ -245,8 +257,8 @@ Definition distribute (fl : flags) (p : prefix) (ch : change) : list req :=
                          end in
        match v with
        | Legacy => if (match nh with [] => true | _ => false end) || importable
-                   then [Apply (Some (fst vr)) (2, snd p) nh] else []
-       | Fixed => [Apply (Some (fst vr)) (2, snd p) (if importable then nh else [])]
+                   then [Apply (Some (fst vr)) (local_pfx p) nh] else []
+       | Fixed => [Apply (Some (fst vr)) (local_pfx p) (if importable then nh else [])]
        end) (c_vrfs c)
    else []).
 
